@@ -262,7 +262,7 @@ func checkG2(prop, tier string) int {
 	budget := 150 * time.Second
 	if tier == "thorough" {
 		maxBound = 3
-		budget = 25 * time.Minute
+		budget = 12 * time.Minute
 	}
 	if v := os.Getenv("VERIF_G2_BOUND"); v != "" {
 		fmt.Sscan(v, &maxBound)
